@@ -429,6 +429,9 @@ type SocketLab struct {
 	ErrLog   *lockedBuffer
 	caseSeq  int64
 	done     chan struct{}
+	// binary mode
+	Helios     *Helios
+	stopHelios func()
 }
 
 type lockedBuffer struct {
@@ -450,6 +453,9 @@ type SocketOpts struct {
 	Mutate    func(cfg *config.Config)
 	// Terminal replaces the balancer as innermost handler (plugin checks with a stub handler).
 	Terminal http.Handler
+	// Binary: the front is the real helios binary started with this configuration (l2_binary.go)
+	// instead of the in-process replica of cmd/helios's composition. LB and Server are nil then.
+	Binary bool
 }
 
 func secs(v, def int) time.Duration {
@@ -483,6 +489,14 @@ func NewSocketLab(strategy string, o SocketOpts) (*SocketLab, error) {
 		o.Mutate(cfg)
 	}
 	l.Cfg = cfg
+	if o.Binary {
+		if err := l.startBinaryFront(); err != nil {
+			l.Close()
+			return nil, err
+		}
+		close(l.done)
+		return l, nil
+	}
 	var inner http.Handler
 	if o.Terminal != nil {
 		inner = o.Terminal
@@ -535,6 +549,10 @@ func (l *SocketLab) Close() {
 		cancel()
 		_ = l.Server.Close()
 		<-l.done
+	}
+	if l.stopHelios != nil {
+		l.stopHelios()
+		l.stopHelios = nil
 	}
 	if l.LB != nil {
 		l.LB.Stop()
